@@ -5,7 +5,7 @@ from __future__ import annotations
 from .. import terms as tm
 from ..mirror import Mirror
 from ..model import AnalysisError
-from .common import ob, need, call_name, count_form, role_of, roles, swap_roles, resolve_ite_free, is_lit
+from .common import ob, need, call_name, count_form, role_of, roles, swap_roles, resolve_ite_free, is_lit, lift_ite
 from .. import symeval
 
 PROP = "C06"
@@ -335,8 +335,8 @@ def rule_twincall(ctx):
     mirror = set(ba) == set(bb) and all(swap_roles(ba[k], f) is bb[k] for k in ba)
     main = [r for r in s.returns if not is_lit(r.term)]
     sym = False
-    if mirror and len(main) == 1 and main[0].term.op == "ite":
-        c, x, y = main[0].term.a
+    if mirror and len(main) == 1 and lift_ite(main[0].term).op == "ite":
+        c, x, y = lift_ite(main[0].term).a
         # ite(fwd > bwd, F[fwd], F[bwd]): the same function of whichever entropy is larger
         if c.op == "cmp" and c.a[0] == "<" and {c.a[1], c.a[2]} == {a, b}:
             big = c.a[2]
